@@ -809,6 +809,65 @@ func netlinkClientOwnership(c *core.Ctx, rule string) {
 					return
 				}
 			}
+			// the connection handed in by the caller (an explicit *Client parameter instead of a flag): judged where
+			// the argument is chosen — the periodic server's goroutine passes psClient, everybody else client
+			if par, isPar := cl.(*ssa.Parameter); isPar && par.Parent() == fn {
+				n++
+				k++
+				classes := p.GoroutineClasses()
+				var judge func(f2 *ssa.Function, par *ssa.Parameter, depth int) string
+				judge = func(f2 *ssa.Function, par *ssa.Parameter, depth int) string {
+					idx := -1
+					for i, pp := range f2.Params {
+						if pp == par {
+							idx = i
+						}
+					}
+					callers := p.Callers(f2)
+					if idx < 0 || len(callers) == 0 || depth > 3 {
+						return "no visible caller chooses the connection"
+					}
+					for _, e := range callers {
+						if e.Site == nil || e.Caller == nil || e.Caller.Func == nil {
+							continue
+						}
+						args := e.Site.Common().Args
+						if e.Site.Common().IsInvoke() || idx >= len(args) {
+							return "connection chosen through an indirect call"
+						}
+						a := args[idx]
+						if ap, ok := a.(*ssa.Parameter); ok {
+							if r := judge(e.Caller.Func, ap, depth+1); r != "" {
+								return r
+							}
+							continue
+						}
+						_, fld, ok := core.LoadedField(a)
+						if !ok || (fld != clientF && fld != psF) {
+							return "the connection passed by " + core.FnName(e.Caller.Func) + " is neither Gtp5g.client nor Gtp5g.psClient"
+						}
+						perio, other := false, false
+						for _, cn := range core.ClassesOf(classes, e.Caller.Func) {
+							if cn == "PERIO" {
+								perio = true
+							} else {
+								other = true
+							}
+						}
+						if fld == psF && other {
+							return core.FnName(e.Caller.Func) + " passes the periodic server's connection but also runs outside the periodic server"
+						}
+						if fld == clientF && perio {
+							return core.FnName(e.Caller.Func) + " passes the event loop's connection but runs on the periodic server's goroutine"
+						}
+					}
+					return ""
+				}
+				why := judge(fn, par, 0)
+				c.Check(rule, fmt.Sprintf("client-selected-by-flag:%s#%d", core.FnName(fn), k), ci.Pos(), why == "",
+					"the netlink request uses the connection its caller chose: psClient on the periodic server's goroutine, client everywhere else"+map[bool]string{true: "", false: " — " + why}[why == ""])
+				return
+			}
 			if !usesPs {
 				// single-goroutine function: must use the event loop's client
 				if _, f2, ok := core.LoadedField(cl); ok && f2 == psF {
@@ -859,6 +918,10 @@ func netlinkClientOwnership(c *core.Ctx, rule string) {
 			for _, ci := range core.Calls(fn, target) {
 				args := core.CallArgs(ci)
 				flag := args[len(args)-1]
+				if bt, isB := flag.Type().Underlying().(*types.Basic); !isB || bt.Kind() != types.Bool {
+					m++ // the connection itself is passed: judged above (client-selected-by-flag)
+					continue
+				}
 				k, isConst := flag.(*ssa.Const)
 				cs := core.ClassesOf(classes, fn)
 				perio, other := false, false
